@@ -29,7 +29,9 @@ func dirtyScript(rng *Rng, id string, withNext, canPanic bool) []Action {
 		if i == n {
 			break
 		}
-		switch rng.Intn(14) {
+		switch rng.Intn(15) {
+		case 14:
+			s = append(s, Action{Op: "editquery"})
 		case 12:
 			s = append(s, Action{Op: rng.Pick([]string{"copy", "copy", "introspect", "cancelreq", "buildurl", "editquery"}), S: "route" + strconv.Itoa(rng.Intn(4))})
 		case 13:
